@@ -102,7 +102,7 @@ FAMILY = {'tri-delaunay': 'tri', 'tri-struct': 'tri', 'tri2-curved': 'tri', 'qua
           'tet-delaunay': 'tet', 'tet-struct': 'tet', 'tet2-curved': 'tet', 'hex-jiggled': 'hex', 'line-random': 'line',
           'wedge': 'wedge'}
 
-# element specs: 'Name', 'Name(3)', 'V:Name' = ElementVector, 'DG:Name' = ElementDG, 'C:spec+spec' = ElementComposite
+# element specs: 'Name', 'Name(3)', 'V:Name' = ElementVector, 'V<n>:Name' = ElementVector(Name, dim=n), 'DG:Name' = ElementDG, 'C:spec+spec' = ElementComposite
 ELEMS = {
     'tri': ['ElementTriP1', 'ElementTriP2', 'ElementTriP0', 'ElementTriMini', 'ElementTriCR', 'ElementTriCCR', 'ElementTriP3',
             'DG:ElementTriP1', 'DG:ElementTriP2', 'ElementTriP1DG', 'V:ElementTriP1', 'V:ElementTriP2', 'V:ElementTriMini',
@@ -125,6 +125,8 @@ def make_elem(spec):
     import skfem.element as E
     if spec.startswith('V:'):
         return E.ElementVector(make_elem(spec[2:]))
+    if spec[0] == 'V' and spec[1].isdigit() and spec[2] == ':':       # V3:Name = ElementVector(Name, dim=3)
+        return E.ElementVector(make_elem(spec[3:]), int(spec[1]))
     if spec.startswith('DG:'):
         return E.ElementDG(make_elem(spec[3:]))
     if spec.startswith('C:'):
